@@ -13,7 +13,10 @@
 (*   sub    split off the next n octets as a new reader.                   *)
 (*          Precondition n <= remaining.                                   *)
 (*   bytes  TOTAL: n <= remaining -> the next n octets, advance by n;      *)
-(*          otherwise nothing (and the cursor is no longer constrained).   *)
+(*          otherwise nothing, and a plain cursor stays where it is.       *)
+(*          (For an ARBITRARY conforming reader driven by the decoder,     *)
+(*          C02, the position after a refused request is not constrained:  *)
+(*          see Poisons and Conform!CallTags.)                             *)
 (* The functional core Apply is shared by: the TLC model of the cursor     *)
 (* (MCReader, C18), the validation of SliceReader traces (C18), and the    *)
 (* validation of every request the real decoder makes of a monitoring      *)
